@@ -18,12 +18,12 @@ P = {
     "streams": [{
         "name": "histories", "pkg": "./internal/rules/mechanisms", "test": "TestVerifC11",
         "overlay": OVERLAY, "eval_module": "Run.Eval_C11", "check_term": "check fx_all",
-        "n_quick": 800, "n_thorough": 12000, "shard": 56,
+        "n_quick": 800, "n_thorough": 8000, "shard": 56,
         "findings": {4: "C11-F4", 6: "C11-F6", 7: "C11-F7"},
     }, {
         "name": "keys", "pkg": "./internal/rules/mechanisms", "test": "TestVerifC11Keys",
         "overlay": OVERLAY, "eval_module": "Run.Eval_C11", "check_term": "check2 true false",
-        "n_quick": 300, "n_thorough": 6000, "shard": 56,
+        "n_quick": 300, "n_thorough": 3000, "shard": 56,
         "findings": {4: "C11-F4", 8: "C11-F8", 9: "C11-F9"},
     }],
     "rule": "stream histories: histories of 2-6 executions of REAL caching mechanisms (oauth2_introspection and generic authenticators, "
@@ -76,7 +76,7 @@ P = {
                   "with forged issuer claims and the finalizer across key-store reloads); an identical request after an allowed one "
                   "is answered without a remote call. Every open finding (F4, F6, F7, F8, F9) has a guard and a proved witness; the "
                   "repaired ones (F1, F2, F3, F5) are model switches with the pinned behaviour kept as refutation. The model is tied to "
-                  "the code by running ~800+300 (quick) / 12000+6000 (thorough) generated histories per run through the real mechanisms "
+                  "the code by running ~800+300 (quick) / 8000+3000 (thorough) generated histories per run through the real mechanisms "
                   "with a recording cache and comparing keys (via the SHA-256 table), hits, remote call counts and outcomes with and "
                   "without cache inside Coq.",
     "level_note": "Trusted: Coq kernel/vm_compute; the correspondence harness (generator, echo/token/JWKS servers, recording cache, "
